@@ -124,16 +124,22 @@ def _translate_type(onnx_type):
     return onnxscript.onnx_types.onnx_type_to_onnxscript_repr(onnx_type, reversible=False)
 
 
-def _translate_signature(inputs, outputs):
-    """Produce the script-functions signature."""
+def _translate_signature(inputs, outputs, rename=None):
+    """Produce the script-functions signature.
+
+    ``rename`` maps ONNX names to python names; it must be the mapping used for the
+    function body so that parameters and their uses agree.
+    """
+    if rename is None:
+        rename = _cleanup_variable_name
 
     def input_sig(inp: ValueInfoProto | str):
         if isinstance(inp, ValueInfoProto):
             # GraphProto inputs/outputs are ValueInfoProto
-            return f"{_cleanup_variable_name(inp.name)}: {_translate_type(inp.type)}"
+            return f"{rename(inp.name)}: {_translate_type(inp.type)}"
 
         # FunctionProto inputs/outputs are just strings
-        return _cleanup_variable_name(inp)
+        return rename(inp)
 
     result = f"({', '.join([input_sig(x) for x in inputs])})"
     if outputs and isinstance(outputs[0], ValueInfoProto):
@@ -369,7 +375,7 @@ class _Exporter:
                 node = onnx.helper.make_node(  # noqa: TID251
                     "Constant",
                     [],
-                    [self._translate_onnx_var(init.name)],  # type: ignore[list-item]
+                    [init.name],  # renamed when the node is translated
                     value=init,
                 )
                 pyinit = self._translate_node(node, opsets, indent=indent)
@@ -727,18 +733,22 @@ class _Exporter:
         else:
             indent_level = 1
             indent = ""
+        # Scope for the renamings that undo the SSA form of control-flow ops
+        self._name_remappings.append({})
+        # The body is translated first: it decides the python names of the variables,
+        # which the signature has to use as well.
+        body = self._translate_graph_body(graph, opsets, indent=indent_level)
+        return_values = ", ".join(self._translate_onnx_var(x) for x in graph.output)
+        signature = _translate_signature(graph.input, graph.output, self._translate_onnx_var)
+        self._name_remappings.pop()
         add(f"{indent}@script()")
-        add(f"{indent}def {function_name}{_translate_signature(graph.input, graph.output)}")
+        add(f"{indent}def {function_name}{signature}")
         indent = indent + _SINGLE_INDENT
         doc = graph.doc_string
         if doc:
             add(f'{indent}"""{doc}"""')
-        # Scope for the renamings that undo the SSA form of control-flow ops
-        self._name_remappings.append({})
-        add(self._translate_graph_body(graph, opsets, indent=indent_level))
-        return_values = ", ".join(self._translate_onnx_var(x) for x in graph.output)
+        add(body)
         add(f"{indent}return {return_values}")
-        self._name_remappings.pop()
         script = "\n".join(result)
         if self.skipped_initializers:
             value_infos = _translate_value_infos(graph.value_info)
